@@ -415,7 +415,10 @@ func genExtD(ctx *Ctx, emit func(Case)) {
 			emit(Case{Stream: "dispatch.model", Line: line, GoOut: out, Cmp: dispatchCmp,
 				Branch: fmt.Sprintf("%s/%s/%s/%s", mode, name, frag, strings.Fields(out)[0]+resClassD(out)),
 				Direct: func() string {
-					if (mode == "att" || mode == "det") && !strings.HasPrefix(out, "fail ") {
+					// (a flipped bit may hit the mode byte itself and turn a signature header into an encryption header:
+					// seen in the thorough tier, `02` → `00`; model and code agree on it, so the refusal predicate is for
+					// the variants that keep the header)
+					if (mode == "att" || mode == "det") && !strings.HasSuffix(name, "-flipped") && !strings.HasPrefix(out, "fail ") {
 						return fmt.Sprintf("ClassifyEncryptedStreamAndMakeDecoder does not refuse a %s message (%s): %s", mode, name, trunc(out, 100))
 					}
 					// same outcome as the direct entry point on the same bytes
@@ -457,7 +460,7 @@ func genExtD(ctx *Ctx, emit func(Case)) {
 		}
 		// beyond the peeked 4096 bytes
 		for _, src := range [][]byte{big.msg, []byte(bigArm)} {
-			if ctx.Quick && k%3 != 0 {
+			if ctx.Quick && k%6 != 0 {
 				break
 			}
 			label := big.mode + "/bigbin"
